@@ -520,6 +520,23 @@ def check_candidates(ctx: Ctx, rules: Dict[str, str]):
         return k.undecided("filter", ML, "single filter `if disorder <= criterium` expected in the enumeration loop")
     FI = flt[0]
     t = FI.test
+    if isinstance(t, ast.BoolOp):
+        # the paper's cut combined with something else
+        cuts = [v for v in t.values if isinstance(v, ast.Compare) and len(v.ops) == 1 and isinstance(v.ops[0], (ast.LtE, ast.Lt, ast.GtE, ast.Gt))]
+        main = cuts[0] if cuts else None
+        extra = [v for v in t.values if v is not main]
+        if main is None:
+            return k.undecided("filter", FI, "filter is not a comparison of the accumulated cost with a threshold")
+        if isinstance(t.op, ast.And):
+            k.check("filter-extra", False, t, "", f"the filter adds the condition(s) `{'; '.join(norm(x) for x in extra)}` to the cut of Mathet et al. 5.1.1: "
+                    f"candidates with cost <= n*delta_empty are discarded, which the paper's argument does not cover - an optimal alignment may need them "
+                    f"(for 3 annotators n equals C(n,2), which can hide a wrong bound)")
+        else:
+            k.check("filter-looser", False, t, "", f"the filter also keeps candidates above the cut (`{'; '.join(norm(x) for x in extra)}`): "
+                    f"the candidate set is no longer exactly the one under n*delta_empty")
+        t = main
+    else:
+        k.check("filter-extra", True, t, "the filter is a single comparison: nothing tighter than the cut of Mathet et al. 5.1.1 is applied", "")
     cost = thr = None
     op_ok = False
     if isinstance(t, ast.Compare) and len(t.ops) == 1:
@@ -565,8 +582,11 @@ def check_candidates(ctx: Ctx, rules: Dict[str, str]):
         a, b = Pa.target.id, Pb.target.id
         accs = [s for s in Pb.body if isinstance(s, ast.AugAssign) and norm(s.target) == cname and isinstance(s.op, ast.Add)]
         ok_term = False
-        if len(accs) == 1 and len(Pb.body) == 1:
+        if len(accs) == 1:
             v = accs[0].value
+            if isinstance(v, ast.Name):
+                loc = [x.value for x in Pb.body if isinstance(x, ast.Assign) and norm(x.targets[0]) == v.id]
+                v = loc[0] if len(loc) == 1 else v
             # precomputation[x][y][tup[x], tup[y]]
             if isinstance(v, ast.Subscript) and isinstance(v.slice, ast.Tuple) and len(v.slice.elts) == 2 and \
                     isinstance(v.value, ast.Subscript) and isinstance(v.value.value, ast.Subscript):
